@@ -18,7 +18,7 @@ func (p *Parser) parseApply(parser *Parser) (Node, error) {
 
 	// Expect the block end token
 	if parser.tokenIndex >= len(parser.tokens) ||
-		(parser.tokens[parser.tokenIndex].Type != TOKEN_BLOCK_END &&
+		(!isBlockEndToken(parser.tokens[parser.tokenIndex].Type) &&
 			parser.tokens[parser.tokenIndex].Type != TOKEN_BLOCK_END_TRIM) {
 		return nil, fmt.Errorf("expected block end token after apply filter at line %d", applyLine)
 	}
@@ -31,7 +31,7 @@ func (p *Parser) parseApply(parser *Parser) (Node, error) {
 	}
 
 	// Expect endapply tag
-	if parser.tokenIndex >= len(parser.tokens) || parser.tokens[parser.tokenIndex].Type != TOKEN_BLOCK_START {
+	if parser.tokenIndex >= len(parser.tokens) || !isBlockStartToken(parser.tokens[parser.tokenIndex].Type) {
 		return nil, fmt.Errorf("expected endapply tag at line %d", applyLine)
 	}
 	parser.tokenIndex++
@@ -44,7 +44,7 @@ func (p *Parser) parseApply(parser *Parser) (Node, error) {
 
 	// Expect block end token
 	if parser.tokenIndex >= len(parser.tokens) ||
-		(parser.tokens[parser.tokenIndex].Type != TOKEN_BLOCK_END &&
+		(!isBlockEndToken(parser.tokens[parser.tokenIndex].Type) &&
 			parser.tokens[parser.tokenIndex].Type != TOKEN_BLOCK_END_TRIM) {
 		return nil, fmt.Errorf("expected block end token after endapply at line %d", applyLine)
 	}
